@@ -3,7 +3,16 @@
 AGG = "func_adl/ast/aggregate_shortcuts.py"
 UTL = "func_adl/ast/func_adl_ast_utils.py"
 
+MD = "func_adl/ast/meta_data.py"
+
 MUTANTS = {
+    "C15": [
+        {"name": "append-after-source", "edits": [(MD, "            self._metadata.append(ast.literal_eval(node.args[1]))\n            return self.visit(node.args[0])", "            r = self.visit(node.args[0])\n            self._metadata.append(ast.literal_eval(node.args[1]))\n            return r")]},
+        {"name": "le-one", "edits": [(MD, "if isinstance(d, dict) and len(d) == 0:", "if isinstance(d, dict) and len(d) <= 1:")]},
+        {"name": "skip-lambda", "edits": [(MD, "    def visit_Call(self, node: ast.Call):\n        \"\"\"Detect a MetaData call", "    def visit_Lambda(self, node):\n        return node\n\n    def visit_Call(self, node: ast.Call):\n        \"\"\"Detect a MetaData call")]},
+        {"name": "in-place-again", "edits": [(MD, "            if len(changes) == 0:\n                return node\n            new_node = copy.copy(node)", "            if len(changes) == 0:\n                return node\n            new_node = node")]},
+        {"name": "outer-only", "edits": [(MD, "                    if isinstance(d, dict) and len(d) == 0:\n                        return n.args[0]", "                    if isinstance(d, dict) and len(d) == 0:\n                        return node.args[0]")]},
+    ],
     "C19": [
         {"name": "sum-counts", "edits": [(AGG, '"lambda acc,v: acc + v"', '"lambda acc,v: acc + 1"')]},
         {"name": "max-is-min", "edits": [(AGG, '"lambda acc,v: acc if acc > v else v"', '"lambda acc,v: acc if acc < v else v"')]},
